@@ -60,6 +60,21 @@ func Bytes(b []byte) string {
 	return sb.String()
 }
 
+// Val prints a byte string like Bytes, except that a run of more than 64 equal bytes is printed as
+// `(repeat B%N (N.to_nat LEN%N))` (the same list; `repeat` is Coq.Lists.List.repeat, which every case
+// file imports), so that a 70000-byte value costs a few characters of case term instead of 200 KB
+func Val(b []byte) string {
+	if len(b) <= 64 {
+		return Bytes(b)
+	}
+	for _, x := range b {
+		if x != b[0] {
+			return Bytes(b)
+		}
+	}
+	return fmt.Sprintf("(repeat %d%%N (N.to_nat %d%%N))", b[0], len(b))
+}
+
 func N(x uint64) string { return fmt.Sprintf("%d", x) }
 
 func Z(x int64) string {
